@@ -195,11 +195,15 @@ def body(ctx):
         dev.shell_scripts[b'shell:x'] = [b'data']
         sess = env.Session(mode, dev)
 
-        def mangle(meta_, w=w):
+        def mangle(meta_, w=w, k=k):
             b = bytearray(meta_['bytes'])
             if meta_['pk']['cmd'] == 'WRTE':
                 b[0:4] = wire.le32(w)
                 b[20:24] = wire.le32(w ^ wire.M32)
+                if k % 4 == 3:
+                    # a garbage header: it announces a payload that is not there (nothing follows on the wire) - the word is rejected at once
+                    b[12:16] = wire.le32((0x7FFFFFF0, 0xFFFFFF00, 4096)[k % 3])
+                    del b[24:]
             return bytes(b)
         sess.core.mangle = mangle
         sess.call('connect')
@@ -207,6 +211,18 @@ def body(ctx):
         sess.close_loop()
         traces.append([dict(ev='unknown', cls=o.exc_name or 'returned')])
         meta.append(dict(kind='unknown-command', word=w, mode=mode))
+    # a payload whose byte sum does not fit 32 bits (17 MiB of 0xFF; beyond what a device may send to a host that announced 1 MiB,
+    # but the library does not cap inbound packets): adbd's checksum is the sum modulo 2^32
+    for mode in ('sync', 'async'):
+        dev = simdev.SimDevice()
+        big = b'\xff' * (17 * 1024 * 1024)
+        dev.shell_scripts[b'shell:x'] = [big]
+        sess = env.Session(mode, dev)
+        sess.call('connect')
+        o = sess.call('shell', 'x', decode=False)
+        sess.close_loop()
+        traces.append([dict(ev='cmp', same=(o.kind == 'ret' and o.value == big))])
+        meta.append(dict(kind='byte sum above 2^32', mode=mode, outcome=o.exc_name or 'returned'))
     ver, r2 = tlc.validate_traces('TraceReader', traces)
     ctx.add_tlc(r2, 'TraceReader over %d executions' % len(traces))
     okn = 0
